@@ -39,7 +39,7 @@ def describe(tier):
         "types) on the listed sets x report formats NaN, (0,False), (-1,False), (7,False), plain 0. Checked per call and cube: (i) the missing set of the NaN "
         "format == the rule evaluated on the rows of each cell (no row; all/any fact-or-weight value missing; mean with zero valid weight); (ii) ~validity of each "
         "pair format == that set; (iii) values agree across formats on non-missing cells; (iv) the plain-0 output is 0 on the missing set. valid_count with plain 0 "
-        "under propagation is excluded (documented shortcut). Non-trivial: the expected output has at least one missing and one non-missing cell. "
+        "under propagation is excluded (documented shortcut). The five calls of one comparison share the same argument arrays (a caller comparing formats re-uses its data). Non-trivial: the expected output has at least one missing and one non-missing cell. "
         "Distinct = distinct (data, commons, call).",
         "bounds": {"sets": SETS[tier], "formats": [f[0] for f in FORMATS]},
         "exhaustive": True,
@@ -65,9 +65,10 @@ def blocks(tier):
 def check_formats(kind, mk_cube, call, N, evals, emiss, grand, acc, case, zero_dim=False):
     agg, ignore, ws, fs = call
     results = {}
+    # the SAME argument objects are passed to all five calls, as a caller comparing report formats would do
+    f2, _, _, _, w2, _, _ = c03.realise(N, ws, fs)
     for fname, fmt in FORMATS:
         try:
-            f2, _, _, _, w2, _, _ = c03.realise(N, ws, fs)
             res = Q.call_cube(mk_cube(), agg, f2, w2, ignore, fmt, N=N if (agg == "count" and zero_dim) else None)
             v, m = Q.normalise(res, fmt)
         except Exception as e:  # noqa
